@@ -143,6 +143,8 @@ class BaseDriver:
             N/A
 
         """
+        # remember if the user gave a port; an explicit port beats a port from the ssh config file
+        self._port_provided = port is not None
         if port is None:
             port = 22
             if "telnet" in transport:
@@ -409,15 +411,15 @@ class BaseDriver:
         ssh = ssh_config_factory(ssh_config_file=self.ssh_config_file)
         host_config = ssh.lookup(host=self.host)
 
-        if host_config.port:
+        if host_config.port and not self._port_provided:
             self.logger.info(
                 f"found port for host in ssh configuration file, using this value "
                 f"'{host_config.port}' for port!"
             )
-            # perhaps this should not override already set port because we dont know if the user
-            # provided the port or we just are accepting the default port value... in any case for
-            # port, if it is in the ssh config file we will override whatever we currently have
+            # only use the port of the ssh config file if the user did not provide one; the
+            # transport dials the port in the base transport args, keep it equal to what we report
             self.port = host_config.port
+            self._base_transport_args.port = host_config.port
         if host_config.user and not self.auth_username:
             self.logger.info(
                 f"found username for host in ssh configuration file, using this value "
